@@ -270,9 +270,9 @@ def compile_cfg(run, specs, cfg, deps):
             else:
                 again += item[1]
         else:
-            results[item.name] = None if c.ok else (shards.diag_summary(c), src, [d["rendered"] for d in c.errors()[:3]])
+            results[item.name] = None if c.ok else (shards.diag_summary(c), src, [d["rendered"] for d in c.errors()[:3]], deps.cfg)
     for item, c, src in core.pmap(single, again):
-        results[item.name] = None if c.ok else (shards.diag_summary(c), src, [d["rendered"] for d in c.errors()[:3]])
+        results[item.name] = None if c.ok else (shards.diag_summary(c), src, [d["rendered"] for d in c.errors()[:3]], deps.cfg)
     return results
 
 
@@ -325,17 +325,17 @@ def check(run):
             run.distinct += 1
             run.count("compiled/%s" % cfg)
             if v is not None:
-                summ, src, rendered = v
+                summ, src, rendered, dcfg = v
                 run.violation("nostd-path:%s:%s" % (cfg, shards.norm_msg(summ)),
                               "enum %s compiles under the std baseline but not under configuration %s: %s" % (s.name, cfg, summ),
                               detail={"config": cfg, "enum": by_name[s.name].render(), "diagnostics": rendered}, replay_src=src,
-                              replay_meta={"kind": "compile", "config": cfg})
+                              replay_meta={"kind": "compile", "config": cfg, "deps": dcfg})
     for s in specs:
         if res["d_std"][s.name] is not None:
             # a corpus program the baseline itself rejects is a violation of whichever property owns that derive; report it here too
-            summ, src, rendered = res["d_std"][s.name]
+            summ, src, rendered, dcfg = res["d_std"][s.name]
             run.violation("baseline:%s" % shards.norm_msg(summ), "corpus enum %s does not compile under the std baseline: %s" % (s.name, summ),
-                          detail={"enum": s.render(), "diagnostics": rendered}, replay_src=src, replay_meta={"kind": "compile", "config": "d_std"})
+                          detail={"enum": s.render(), "diagnostics": rendered}, replay_src=src, replay_meta={"kind": "compile", "config": "d_std", "deps": dcfg})
     # sanity of configuration (a): strum built with default-features = false must really be a no_std crate
     # (its std-only `impl std::error::Error for ParseError` must not exist)
     psrc = "fn needs_error<T: std::error::Error>() {}\nfn main() { needs_error::<strum::ParseError>(); }\n"
